@@ -12,7 +12,7 @@ from hgsim.util import canon, digest, mix
 
 ID = "C10"
 LEVEL = "exploration"
-BUDGET = {"quick": (8, 160, 45), "thorough": (16, 10000, 600)}
+BUDGET = {"quick": (8, 400, 90), "thorough": (16, 10000, 600)}
 RULE = (
     "seeded inner graphs (DAG, optional if/else block so that items take different branches, optional value-keyed failing items) mapped "
     "through runner.map and through a map_over graph node (optionally with renamed wrapper inputs/outputs and surrounded by producer/consumer "
